@@ -119,4 +119,83 @@ Definition Equal (d c : desc) : bool :=
    None = ("", ErrVSSSignalIdNotFound) -- the only error the function returns. *)
 Definition StreamSwitchSignalId (d : desc) : option N := vss d.
 
+(* nested module: `Import SegDesc` does not bring these names into scope *)
+Module Consts.
+(* ---- scte35/doc.go: the exported constant tables (SpliceCommandType, DeviceRestrictions, SegDescType, SegUPIDType),
+   in source order; the four `...Names` maps have exactly these keys (executor op const.scte35.names) ---- *)
+Definition SpliceNull : N := 0.
+Definition SpliceSchedule : N := 4.
+Definition SpliceInsert : N := 5.
+Definition TimeSignal : N := 6.
+Definition BandwidthReservation : N := 7.
+Definition PrivateCommand : N := 255.
+Definition RestrictGroup0 : N := 0.
+Definition RestrictGroup1 : N := 1.
+Definition RestrictGroup2 : N := 2.
+Definition RestrictNone : N := 3.
+Definition SegDescNotIndicated : N := 0.
+Definition SegDescContentIdentification : N := 1.
+Definition SegDescProgramStart : N := 16.
+Definition SegDescProgramEnd : N := 17.
+Definition SegDescProgramEarlyTermination : N := 18.
+Definition SegDescProgramBreakaway : N := 19.
+Definition SegDescProgramResumption : N := 20.
+Definition SegDescProgramRunoverPlanned : N := 21.
+Definition SegDescProgramRunoverUnplanned : N := 22.
+Definition SegDescProgramOverlapStart : N := 23.
+Definition SegDescProgramBlackoutOverride : N := 24.
+Definition SegDescProgramStartInProgress : N := 25.
+Definition SegDescChapterStart : N := 32.
+Definition SegDescChapterEnd : N := 33.
+Definition SegDescBreakStart : N := 34.
+Definition SegDescBreakEnd : N := 35.
+Definition SegDescOpeningCreditStart : N := 36.
+Definition SegDescOpeningCreditEnd : N := 37.
+Definition SegDescClosingCreditStart : N := 38.
+Definition SegDescClosingCreditEnd : N := 39.
+Definition SegDescProviderAdvertisementStart : N := 48.
+Definition SegDescProviderAdvertisementEnd : N := 49.
+Definition SegDescDistributorAdvertisementStart : N := 50.
+Definition SegDescDistributorAdvertisementEnd : N := 51.
+Definition SegDescProviderPOStart : N := 52.
+Definition SegDescProviderPOEnd : N := 53.
+Definition SegDescDistributorPOStart : N := 54.
+Definition SegDescDistributorPOEnd : N := 55.
+Definition SegDescProviderPromoStart : N := 60.
+Definition SegDescProviderPromoEnd : N := 61.
+Definition SegDescUnscheduledEventStart : N := 64.
+Definition SegDescUnscheduledEventEnd : N := 65.
+Definition SegDescAlternateContentOpportunityStart : N := 66.
+Definition SegDescAlternateContentOpportunityEnd : N := 67.
+Definition SegDescProviderAdBlockStart : N := 68.
+Definition SegDescProviderAdBlockEnd : N := 69.
+Definition SegDescNetworkStart : N := 80.
+Definition SegDescNetworkEnd : N := 81.
+Definition SegUPIDNotUsed : N := 0.
+Definition SegUPIDUserDefined : N := 1.
+Definition SegUPIDISCI : N := 2.
+Definition SegUPIDAdID : N := 3.
+Definition SegUPIDUMID : N := 4.
+Definition SegUPIDISAN : N := 5.
+Definition SegUPIDVISAN : N := 6.
+Definition SegUPIDTID : N := 7.
+Definition SegUPIDTI : N := 8.
+Definition SegUPIDADI : N := 9.
+Definition SegUPIDEIDR : N := 10.
+Definition SegUPIDATSCID : N := 11.
+Definition SegUPIDMPU : N := 12.
+Definition SegUPIDMID : N := 13.
+Definition SegUPADSINFO : N := 14.
+Definition SegUPIDURN : N := 15.
+Definition SpliceCommandTypes : list N :=
+  [SpliceNull; SpliceSchedule; SpliceInsert; TimeSignal; BandwidthReservation; PrivateCommand].
+Definition DeviceRestrictionsValues : list N :=
+  [RestrictGroup0; RestrictGroup1; RestrictGroup2; RestrictNone].
+Definition SegDescTypes : list N :=
+  [SegDescNotIndicated; SegDescContentIdentification; SegDescProgramStart; SegDescProgramEnd; SegDescProgramEarlyTermination; SegDescProgramBreakaway; SegDescProgramResumption; SegDescProgramRunoverPlanned; SegDescProgramRunoverUnplanned; SegDescProgramOverlapStart; SegDescProgramBlackoutOverride; SegDescProgramStartInProgress; SegDescChapterStart; SegDescChapterEnd; SegDescBreakStart; SegDescBreakEnd; SegDescOpeningCreditStart; SegDescOpeningCreditEnd; SegDescClosingCreditStart; SegDescClosingCreditEnd; SegDescProviderAdvertisementStart; SegDescProviderAdvertisementEnd; SegDescDistributorAdvertisementStart; SegDescDistributorAdvertisementEnd; SegDescProviderPOStart; SegDescProviderPOEnd; SegDescDistributorPOStart; SegDescDistributorPOEnd; SegDescProviderPromoStart; SegDescProviderPromoEnd; SegDescUnscheduledEventStart; SegDescUnscheduledEventEnd; SegDescAlternateContentOpportunityStart; SegDescAlternateContentOpportunityEnd; SegDescProviderAdBlockStart; SegDescProviderAdBlockEnd; SegDescNetworkStart; SegDescNetworkEnd].
+Definition SegUPIDTypes : list N :=
+  [SegUPIDNotUsed; SegUPIDUserDefined; SegUPIDISCI; SegUPIDAdID; SegUPIDUMID; SegUPIDISAN; SegUPIDVISAN; SegUPIDTID; SegUPIDTI; SegUPIDADI; SegUPIDEIDR; SegUPIDATSCID; SegUPIDMPU; SegUPIDMID; SegUPADSINFO; SegUPIDURN].
+Definition exported_consts : list N := SpliceCommandTypes ++ DeviceRestrictionsValues ++ SegDescTypes ++ SegUPIDTypes.
+End Consts.
+
 End SegDesc.
